@@ -130,10 +130,10 @@ func callsOnAllPaths(g *ssa.Function, pred func(cs ssa.CallInstruction) bool) (b
 }
 
 type goSite struct {
-	g     *ssa.Go
-	cl    *ssa.Function
-	fn    *ssa.Function // spawner
-	loop  *core.Loop
+	g    *ssa.Go
+	cl   *ssa.Function
+	fn   *ssa.Function // spawner
+	loop *core.Loop
 }
 
 func goSitesOf(p *core.Prog, rels ...string) []*goSite {
@@ -193,7 +193,9 @@ func c09ForkJoin(c *ctx) {
 		cb := callbackParamCalled(s.cl)
 		switch {
 		case doneWG != nil:
-			if ok, why := callsOnAllPaths(s.cl, func(cs ssa.CallInstruction) bool { return isWG(cs, "Done") && resolveObj(cs.Common().Args[0]) == doneWG }); !ok {
+			if ok, why := callsOnAllPaths(s.cl, func(cs ssa.CallInstruction) bool {
+				return isWG(cs, "Done") && resolveObj(cs.Common().Args[0]) == doneWG
+			}); !ok {
 				bad += "WaitGroup.Done is not called exactly once on every path of the goroutine (" + why + "); "
 			}
 			join = wgWait(s.fn, doneWG)
